@@ -89,6 +89,15 @@ where
         self.roadmap.clone()
     }
 
+    /// Read-only snapshot of the roadmap: `(state, adjacency list)` per milestone.
+    #[cfg(feature = "verif")]
+    pub fn verif_roadmap(&self) -> Vec<(S, Vec<usize>)> {
+        self.roadmap
+            .iter()
+            .map(|n| (n.state.clone(), n.edges.clone()))
+            .collect()
+    }
+
     /// Update ProblemDefinition. This is so that you can use an already sampled roadmap but just
     /// change the start and goal states.
     pub fn set_problem_definition(&mut self, pd: Arc<ProblemDefinition<S, SP, G>>) {
@@ -125,6 +134,10 @@ where
         let start_time = Instant::now();
         loop {
             if start_time.elapsed().as_secs_f64() > self.timeout {
+                break;
+            }
+            #[cfg(feature = "verif")]
+            if !crate::verif::take_tick() {
                 break;
             }
 
